@@ -233,7 +233,10 @@ def treeSys (c : TreeCfg) (f : TreeFmt) : Sys TreeS where
         | some s => .ok s
         | none => .error "not the layout of any tree state (dangling link, broken free list, or a slot that is neither live, recycled nor never used)"
   encode := fun s => if s.slots ≤ 64 then some (f.toBytes (s.image c 0 0)) else none
-  step := treeStep c
+  step := fun s op args =>
+    match op, args with
+    | "dlen", [n] => some (s, toString (f.dataLen n.toNat))
+    | _, _ => treeStep c s op args
   trace := fun s op args => treeTrace (if op.startsWith "r" && op != "rem" then s else s.openMut c) op args
   absEq := fun a b =>
     a.root.toList.map (·.2) == b.root.toList.map (·.2) && a.size == b.size && a.cap == b.cap
@@ -358,6 +361,7 @@ def pstrStep (w : Nat) (s : ByteArray) (op : String) (args : List Int) : Option 
 def podstrStep (n : Nat) (s : ByteArray) (op : String) (args : List Int) : Option (ByteArray × String) :=
   match op, args with
   | "from", [blob] => some (PodStr.ofBytes n (blobBytes blob), "-")
+  | "copyb", [blob] => some (PodStr.ofBytes n (blobBytes blob), "-")
   | "copy", [blob] => some (PodStr.ofBytes n (blobBytes blob), "-")
   | "asunchk", [] =>
     match PodStr.asStr s with
